@@ -96,6 +96,12 @@ CLAIMED = {
         text="Lean: for every two caller scopes that agree on `derive_more`, a template without escaping heads resolves every name identically (resolve_independent, all scopes, no bound); an escaping path head really is a dependency (escaping_path_depends); the table of all 247 templates of impl/src, regenerated from the working tree by the translator on every run, has no escaping head (all_templates_closed, decide +kernel), hence expansions_scope_independent for the current source. Tie: the translator is checked on every run (every template re-prints into its source span; id table vs names by gen-selfcheck; identifier sequences of the Lean table == extraction). Real macro: a 39-item corpus covering all 50 derives and their attribute modes compiled in a plain module, a #[no_implicit_prelude] module and a module redefining 80 prelude types / variants / traits (with the prelude traits' methods, blanket-implemented) / macros, plus a #![no_std] crate; the 127-entry behaviour digest must be identical in all modules. thorough: one module per redefined name and kind",
         note="Lean kernel; model regenerated by translator; rustc's name resolution is modelled (first segment / macro / method lookups), validated by the hostile compiles; built-in attributes and primitive-type shadowing are outside the model",
         ref="DESIGN.md §4 C15"),
+    "C19": dict(
+        level="proof",
+        technique="Lean 4 theorem over all worlds (hash seeds, expansion histories) about an abstract expander + kernel-decided facts about the table of every hashed-collection mention and impure name regenerated from the source by a translator on every run + byte comparison of expansions across fresh processes and orders (partial: the model cannot exhibit a nondeterministic run, the comparison can)",
+        text="Lean: for every expander, iteration-order function and pair of worlds (seed, history of earlier expansions), if every hashed collection of the source uses the fixed hasher and the source mentions no global state, the emitted tokens depend on the item only (seed_and_history_free); conversely an unfixed site / an impure mention is a real dependency for some expander (unfixed_site_depends, global_state_depends); the regenerated table (22 mentions of HashMap/HashSet in impl/src, each resolved through the file's use items; the aliases' hasher parameter; DeterministicState's build_hasher; statics, thread-locals, clocks, random, env, files, ids) satisfies both (all_sites_fixed, no_global_state: decide +kernel). Tie: identifier-token count of the translator; 276 inputs (30 hand-written ones reaching every iteration site with >= 6 groups, the rest from the other properties' generators) expanded by the working-tree code in 4 fresh processes in different orders and twice in a row, compared byte for byte; thorough: 4000 inputs x 10 processes and rustc -Zunpretty=expanded of the corpus in 3 compiler processes",
+        note="partial: Lean kernel for the model + regenerated table; that std's DefaultHasher::default() and syn's Hash impls are process-independent is trusted and observed",
+        ref="DESIGN.md §4 C19"),
 }
 
 NOT_APPLICABLE = {}
